@@ -1,15 +1,16 @@
 #!/bin/sh
 # dev/mutants-all.sh [Cxx …] — run every stored mutant through its property's check (scratch worktrees under /tmp),
 # one line per mutant in dev/mutant-results.tsv: property, mutant, exit, verdict line. Not a registered command.
-OUT=/verif/dev/mutant-results.tsv
-PROPS="${@:-$(ls /verif/dev/mutants)}"
+ROOT="$(cd "$(dirname "$0")/.." && pwd)"
+OUT=$ROOT/dev/mutant-results.tsv
+PROPS="${@:-$(ls "$ROOT/dev/mutants")}"
 for P in $PROPS; do
-  for M in /verif/dev/mutants/$P/*.diff; do
+  for M in $ROOT/dev/mutants/$P/*.diff; do
     N=$(basename $M .diff)
     grep -q "^$P	$N	" $OUT 2>/dev/null && continue
-    LOG=$(timeout 1500 sh /verif/dev/mutant.sh $P $M 2>&1)
+    LOG=$(timeout 1500 sh $ROOT/dev/mutant.sh $P $M 2>&1)
     RC=$(echo "$LOG" | grep -o "mutant exit=[0-9]*" | tail -1 | cut -d= -f2)
-    V=$(echo "$LOG" | grep -E "^VIOLATION|PATCH DOES NOT APPLY|MUTANT DOES NOT BUILD" | head -1 | sed 's|/tmp/mut-replays/||')
+    V=$(echo "$LOG" | grep -E "^VIOLATION|PATCH DOES NOT APPLY|MUTANT DOES NOT BUILD" | head -1 | sed 's|/tmp/mut-replays-[0-9]*/||')
     printf "%s\t%s\t%s\t%s\n" "$P" "$N" "${RC:-timeout}" "$V" >> $OUT
   done
 done
